@@ -190,6 +190,26 @@ theorem history_independent_counterexample :
     r2.err = none ∧ r2.report.map (·.body) = some [7] ∧ cold.report.map (·.body) = some [] := by
   decide
 
+/-- The same mechanism without any change of the scanner set: the report is
+    coalesced per ecosystem, so it depends on how the ecosystems group the
+    scanners; regroup the same two package scanners from one ecosystem into two
+    and the lookup returns the report of the old grouping (here the coalescer
+    reports how many package scanners its ecosystem has). Neither the
+    scanned_manifest rows nor the state token can tell the two configurations
+    apart. (finding stale-report-after-scanner-change, regrouping variant) -/
+theorem history_independent_counterexample_regrouped :
+    let a : Scanner := ⟨"a", "1", .pkg⟩
+    let b : Scanner := ⟨"b", "1", .pkg⟩
+    let sem : Sem := { scan := fun _ _ => [], real := fun _ => false, coal := fun eco _ => [eco.ps.length], merge := fun bs => bs.flatten }
+    let one : Cfg := [{ ps := [a, b], ds := [], rs := [], fs := [] }]
+    let two : Cfg := [{ ps := [a], ds := [], rs := [], fs := [] }, { ps := [b], ds := [], rs := [], fs := [] }]
+    let r1 := index sem clean one [1] {} false
+    let r2 := index sem clean two [1] r1.st false
+    let cold := index sem clean two [1] {} false
+    one.scanners = two.scanners ∧
+    r2.err = none ∧ r2.report.map (·.body) = some [2] ∧ cold.report.map (·.body) = some [1, 1] := by
+  decide
+
 /-! ## The by-design exception: a scanner that cannot reach the network -/
 
 namespace Witness
